@@ -27,8 +27,8 @@
         ndel/phys (f32 division) like the rational does: true for phys < 2^20 and thresholds 0, 1/10, 1/4, 1/2, 3/2;
      E3 fragment ids < 2^32, 0 < physical_rows < 2^32 for every fragment of a task (MissingAddrs runs 2^32 steps
         on an empty fragment);
-     E4 fragment-level version metadata: created_at present whenever last_updated_at is absent is excluded
-        ([versions_paired]; build_manifest always writes both or none). *)
+     E4 fragment-level version metadata ([versions_shape]): with stable row ids last_updated_at is present whenever
+        created_at is (build_manifest always writes both or none); without stable row ids neither is stored. *)
 From LanceV Require Import Common.Base Meta.Model_Flags Table.Model_Manifest.
 Local Open Scope N_scope.
 
@@ -338,9 +338,10 @@ Definition groups_ok (m : Manifest) (groups : list RewriteGroup) : bool :=
   && forallb (fun i => negb (n_mem i (frag_ids (m_fragments m)))
                        && match max_fragment_id m with Some mx => i <=? mx | None => false end) (reserved_of groups).
 
-(* E4 *)
-Definition versions_paired (l : list Fragment) : bool :=
-  forallb (fun f => implb (is_some (fr_created_at f)) (is_some (fr_updated_at f))) l.
+(* E4: with stable row ids last_updated_at is present whenever created_at is; without, neither is stored *)
+Definition versions_shape (stable : bool) (l : list Fragment) : bool :=
+  forallb (fun f => if stable then implb (is_some (fr_created_at f)) (is_some (fr_updated_at f))
+                    else negb (is_some (fr_created_at f)) && negb (is_some (fr_updated_at f))) l.
 
 (* E3 for the fragments of a task *)
 Definition remap_dom (olds news : list Fragment) : bool :=
@@ -380,7 +381,7 @@ Definition chk_task_remap (i : list Fragment * list Fragment) (o : list (N * opt
 
 (* the hypotheses of C13_content_invariant / C13_remap_bijection hold for every real compaction *)
 Definition chk_groups_ok (i : Manifest * list RewriteGroup) (o : bool) : bool :=
-  Bool.eqb (groups_ok (fst i) (snd i) && versions_paired (m_fragments (fst i))) o.
+  Bool.eqb (groups_ok (fst i) (snd i) && versions_shape (uses_stable (fst i)) (m_fragments (fst i))) o.
 Definition chk_remap_dom (i : list Fragment * list Fragment) (o : bool) : bool :=
   Bool.eqb (remap_dom (fst i) (snd i)) o.
 
